@@ -19,6 +19,7 @@ Next ==
      IN  /\ mon' = m2
          /\ run' = IF ev.e = "Reset" THEN ev.run ELSE run
          /\ (fresh # {} => PrintT(ToString(<<"BAD", run, l, fresh>>)))
+         /\ (ev.e # "Reset" /\ ~mon.crashed /\ m2.crashed => PrintT(ToString(<<"CRASHED", run>>)))
   /\ l' = l + 1
 
 Spec == Init /\ [][Next]_vars
